@@ -583,6 +583,15 @@ pub fn decode_files(files: &BTreeMap<String, Vec<u8>>) -> Result<Decoded, String
                 }
             }
         }
+        for cf in tree.kids("conditionalFormatting") {
+            for r in cf.kids("cfRule") {
+                if let Some(x) = r.attr("dxfId") {
+                    if x.parse::<usize>().map(|i| i >= d.n_dxfs).unwrap_or(true) {
+                        errors.push(format!("{}: cfRule dxfId {} outside dxfs ({})", ds.part, x, d.n_dxfs));
+                    }
+                }
+            }
+        }
         if let Some(mc) = tree.child("mergeCells") {
             for m in mc.kids("mergeCell") {
                 let r = m.attr("ref").unwrap_or("").to_string();
